@@ -171,6 +171,12 @@ func (w *Witness) Update(ctx context.Context, logID string, nextRaw []byte, pf [
 	if err != nil {
 		return nil, fmt.Errorf("couldn't parse input STH: %v", err)
 	}
+	// Only what was verified is stored (and handed back to later callers): the
+	// caller's bytes may carry further members, e.g. purported witness signatures.
+	nextRaw, err = json.Marshal(next)
+	if err != nil {
+		return nil, fmt.Errorf("couldn't marshal verified STH: %v", err)
+	}
 	// Get the latest one for the log because we don't want consistency proofs
 	// with respect to older STHs.  Bind this all in a transaction to
 	// avoid race conditions when updating the database.
